@@ -42,3 +42,14 @@ Example C04_tie_example :
   g_fw_force_bin_existence_single xarith 10 (mk_fw 3 1 (Fin (mkq 1 2)) (Fin 0) true false) (Fin (qz (-1))) None
   = Done (mk_fw (-2) 6 (Fin (mkq 1 2)) (Fin 0) true false, OIInt 5).
 Proof. vm_compute. split; reflexivity. Qed.
+
+(** the array branch (fill_n): after numpy reduced the batch to its minimum and maximum, the current code is the model's
+    force_array - minimum first, then maximum, the first bin map that is not None is the one returned *)
+Theorem C04_tie_array_branch_is_model : forall fuel b mn mx, 0 < f_w b -> (1 <= fuel)%nat ->
+  g_fw_force_min_max xarith fuel (embed b false) (Fin mn) (Fin mx) None =
+  Done (embed (fst (force_single (fst (force_single b mn false)) mx false)) false,
+        embed_ret (match snd (force_single b mn false) with
+                   | BNone => snd (force_single (fst (force_single b mn false)) mx false)
+                   | r => r end)).
+Proof. exact gen_force_min_max_is_model. Qed.
+Print Assumptions C04_tie_array_branch_is_model.
